@@ -180,6 +180,7 @@ pub fn scen_iterate(m: &Model, setup: &Setup, limit: usize, out: &mut Out) {
     let Some(mut built) = build_or_report(m, setup, out) else { return };
     let mut brancher = make_brancher(&setup.bspec, &built.solver, &built.vars.ids);
     let mut term = StopAt::never();
+    let since = term.since.clone();
     let mut sols: Vec<Vec<i32>> = vec![];
     let mut end = "limit";
     {
@@ -188,6 +189,8 @@ pub fn scen_iterate(m: &Model, setup: &Setup, limit: usize, out: &mut Out) {
             if sols.len() >= limit {
                 break;
             }
+            // the poll cap is per solve, not for the whole enumeration
+            since.set(0);
             match it.next_solution() {
                 IteratedSolution::Solution(sol, _, _) => match extract(sol.as_reference(), &built.vars) {
                     Some(vs) => sols.push(vs),
